@@ -169,7 +169,9 @@ class SchedX(ActionScheduler):
     _vidx = None
 
     def default_action(self, obj, time, new_state):
-        self._vrunner.results.append(f'act {self._vidx} {obj.k} {ticks(time)} {ival(new_state)} -')
+        # the scheduler's own state must already be the new one while its actions run
+        stale = '' if self.current_state == new_state else ' stale-state'
+        self._vrunner.results.append(f'act {self._vidx} {obj.k} {ticks(time)} {ival(new_state)} -' + stale)
 
 
 class Obj:
@@ -596,7 +598,8 @@ class FullRunner(Runner):
                 def ovr(sched, ob, time, state, o=o):
                     ok = sched is s
                     runner.results.append(f'act {s._vidx} {ob.k} {ticks(time)} {ival(state)} {o}'
-                                          + ('' if ok else ' badargs'))
+                                          + ('' if ok else ' badargs')
+                                          + ('' if sched.current_state == state else ' stale-state'))
             r = s.register_object(obj, ovr)
             return 'ret 1' if r else 'ret 0'
         if op == 'unregobj':
@@ -928,6 +931,21 @@ class MakerX(PartHandler):
                 runner.sassets.append(cls(name=f'K{len(runner.sassets)}'))
 
 
+def _multi_sim(system, index):
+    system.simulate(0, print_summary=False)
+
+
+class NesterX(PartHandler):
+    """a device that constructs helper assets inside its own constructor (like a machine that makes its
+    own sensor): the helpers get later ids but are registered first"""
+
+    def __init__(self, runner, n):
+        super().__init__(name=f'N{len(runner.sassets)}')
+        for j in range(n):
+            cls = [Buffer, Sink, PartHandler][j % 3]
+            runner.sassets.append(cls(name=f'H{len(runner.sassets)}'))
+
+
 class SysRunner(FullRunner):
     CLS = {'handler': PartHandler, 'processor': PartProcessor, 'sink': Sink, 'buffer': Buffer, 'source': Source,
            'maint': Maintainer}
@@ -956,6 +974,10 @@ class SysRunner(FullRunner):
             if op == 'new':
                 self.systems.append(System())
                 self.out.append('sres ok')
+            elif op == 'asset' and toks[2] == 'nester':
+                a = NesterX(self, int(toks[3]))
+                self.sassets.append(a)
+                self.out.append('sres ok')
             elif op == 'asset' and toks[2] == 'maker':
                 # an asset whose start-up (initialize) constructs further assets, `depth` levels deep
                 a = MakerX(self, int(toks[3]), int(toks[4]))
@@ -968,6 +990,11 @@ class SysRunner(FullRunner):
                 self.out.append('sres ok')
             elif op == 'simulate':
                 self.systems[int(toks[2])].simulate(0, print_summary=False)
+                self.out.append('sres ok')
+            elif op == 'multi':
+                # in-thread repetitions: each creates a System (which becomes the current one) and simulates it
+                got = System.simulate_multiple_times(_multi_sim, int(toks[2]), 0)
+                self.systems.extend(got)
                 self.out.append('sres ok')
             elif op == 'find':
                 sysm = self.systems[int(toks[2])]
